@@ -80,7 +80,7 @@ pub fn check(c: &Case) -> CheckResult {
             }
         }
         (Some(side), Some(f)) => {
-            if f.kind == FKind::Interrupted {
+            if f.kind == FKind::Interrupted || f.kind == FKind::InterruptedStorm {
                 // (3) a transient interruption: either the matching error, or success with exactly the fault-free output
                 if res.ok() { ensure!(sink[..] == ref_sink[..], "success after an interrupted call but the output is incomplete ({} of {} bytes)", sink.len(), ref_sink.len()); }
                 else { ensure!(if side == Side::Read { res.io_read().is_some() } else { res.io_write().is_some() }, "interrupted {:?} call surfaced as {}", side, res.show()); }
@@ -126,11 +126,15 @@ pub fn run(ctx: &Ctx) {
         for (side, n) in [(Side::Read, nr), (Side::Write, nw), (Side::Flush, nf)] { for k in 1..=n + 1 { for kind in FKINDS { if kind == FKind::ZeroWrite && side != Side::Write { continue; } let mut c = b.clone(); c.fault = Some(Fault { side, k, kind }); cases.push(c); } } }
         cases.push(b.clone());
     }
+    // a long unbroken run of EINTR on one call site: an error or (after retrying) the complete result - never a crash
+    let mut storms = Vec::new();
+    for b in bases.iter().take(8) { let (nr, nw, _) = call_counts(b).unwrap_or((0, 0, 0)); for (side, n) in [(Side::Read, nr), (Side::Write, nw)] { for k in [1usize, 2, n.max(1)] { let mut c = b.clone(); c.fault = Some(Fault { side, k, kind: FKind::InterruptedStorm }); storms.push(c); } } }
+    ctx.sse_vec("interrupted_storms", "50 000 consecutive EINTR results at the first, second and last read / write call of 8 base cases", storms, check);
     ctx.sse_vec("fault_positions_sse", &format!("{} base cases (key encrypt/decrypt, hooked loops) x every call index on every side x 8 fault kinds", bases.len()), cases, check);
     // at the command line: a sink that fails (/dev/full, closed pipe) must turn into exit status 1 (shared with C12)
     { use super::c12::{Case as C12, Req, FileKind, SenderPos, Sink, wiring_from};
       let mut v = Vec::new();
-      for (i, req) in [Req::KeyEnc, Req::KeyDec(FileKind::Authentic), Req::PassEnc, Req::PassDec(FileKind::Authentic)].into_iter().enumerate() { for sink in [Sink::DevFull, Sink::ClosedPipe] { for len in [1usize, 70_000] { v.push(C12 { req, plain: Plain { len, seed: ctx.seed + i as u64 }, chunks: vec![], pos: SenderPos::First, wirings: vec![wiring_from(0)], sink, sel: ctx.seed, prior_out: None, env_decoy: 0 }); } } }
+      for (i, req) in [Req::KeyEnc, Req::KeyDec(FileKind::Authentic), Req::PassEnc, Req::PassDec(FileKind::Authentic)].into_iter().enumerate() { for sink in [Sink::DevFull, Sink::ClosedPipe] { for len in [1usize, 70_000] { v.push(C12 { req, plain: Plain { len, seed: ctx.seed + i as u64 }, chunks: vec![], pos: SenderPos::First, wirings: vec![wiring_from(0)], sink, sel: ctx.seed, prior_out: None, env_decoy: 0, in_name: 0 }); } } }
       ctx.sse_vec("cli_sink_failures", "encrypt / decrypt / password encrypt / password decrypt x {/dev/full, closed pipe} x {1 B, 70 kB}", v, super::c12::check); }
     ctx.pbt("pbt_small", ctx.n(150_000, 1_500_000), || strat(op_strategy().boxed(), false), check);
     ctx.pbt("pbt_64k_chunks", ctx.n(3_000, 60_000), || strat(prop_oneof![Just(Op::KeyEnc), Just(Op::KeyDec)].boxed(), true), check);
